@@ -144,7 +144,7 @@ static rc::Gen<Case> genCase() {
         c.tseed = *rc::gen::arbitrary<uint64_t>();
         c.with_fail = *rc::gen::weightedElement<bool>({{3, false}, {1, true}});
         vp::Rng trng(c.tseed);
-        FamilyOpts fo; fo.allow_fail = c.with_fail; fo.allow_nowrite = false; fo.max_size = 8; fo.max_regs = 5;
+        FamilyOpts fo; fo.allow_fail = c.with_fail; fo.allow_nowrite = false; fo.allow_descending = false; fo.max_size = 8; fo.max_regs = 5;   // every area is made to load its defaults below
         if (c.tseed % 8 == 7) { fo.max_areas = 6; fo.max_size = 16; fo.max_regs = 12; }   // some larger tables
         if (c.tseed % 32 == 5) fo.huge = 1;                                              // an area beyond 2^16 words with registers behind offset 0x10000
         if (c.tseed % 32 == 6) fo.many = 1;                                              // 32..70 registers
